@@ -1,4 +1,5 @@
 import MlsVerif.Proofs.GroupInv
+import MlsVerif.Proofs.GroupExt
 /-
 Every commit of the group model is a `Step` of the tree-layer world (`Proofs/Tree/World.lean`); hence the
 invariant `GInv` holds in every reachable group world.
@@ -160,5 +161,6 @@ theorem reachable_ginv {w : GroupWorld} (h : Reachable w) : GInv w := by
   induction h with
   | init l => exact ginv_init l
   | commit _ hok hc ih => exact ginv_commit ih hok hc
+  | ext _ hok hc ih => exact ginv_ext ih hok hc
 
 end MlsVerif.Group
